@@ -13,3 +13,5 @@ package dedupkey
 //@ func DecodeDedupKey
 //@   lenient
 //@   modifies alloc
+//@   -- no payload at all is an error like any other undecodable payload
+//@   ensures data == nil ==> result1 != nil
